@@ -672,10 +672,12 @@ def all_cases(quick):
         for variables in variable_lists(domset, 3, True):
             yield "vars", mkspec(domset, variables, [], NO_AGENTS)
     # CONS: one constraint of the menu on every ordered scope
-    for domset in DOMSETS:
-        for variables in variable_lists(domset, 2 if quick else 3, False):
+    for di, domset in enumerate(DOMSETS):
+        # quick: arity 3 (ternary extensional tables, lambdas) only on the first and fourth domain sets
+        ar = 3 if (not quick or di in (0, 3)) else 2
+        for variables in variable_lists(domset, ar, False):
             names = [v[0] for v in variables]
-            for c in constraint_menu(names, 2 if quick else 3):
+            for c in constraint_menu(names, ar):
                 yield "cons", mkspec(domset, variables, [named(c, "c1")], NO_AGENTS)
     # PAIR: two constraints (names in non-sorted insertion order), every ordered pair of the binary menu
     for domset, doms in (([DI2, DS2], ["di", "ds", "di"]), ([DI3, DSN], ["ds", "ds", "di"])):
